@@ -364,7 +364,7 @@ func init() {
 								if decl, ok := c12Declared(n.md); ok {
 									seen[n.md.FullName()] = true
 									tnames := related(decl)
-									if isRoot || tier == "thorough" {
+									if isRoot || tier == "thorough" || tier == "quick" { // the full name set costs about a second
 										tnames = universe.all
 									}
 									judge(r, subject{desc: fmt.Sprintf("%s (variant %d) %s", tn, vi, path), v: n.msg, declNS: "FHIR", decl: decl, identity: n.msg, class: "element"}, tnames)
